@@ -113,42 +113,114 @@ func (q verifC08Q) String() string {
 type verifC08Call func(a acl.Authorizer, s string, c *acl.AuthorizerContext) acl.EnforcementDecision
 
 var verifC08Calls = map[string]verifC08Call{
-	"ACLRead":                 func(a acl.Authorizer, _ string, c *acl.AuthorizerContext) acl.EnforcementDecision { return a.ACLRead(c) },
-	"ACLWrite":                func(a acl.Authorizer, _ string, c *acl.AuthorizerContext) acl.EnforcementDecision { return a.ACLWrite(c) },
-	"AgentRead":               func(a acl.Authorizer, s string, c *acl.AuthorizerContext) acl.EnforcementDecision { return a.AgentRead(s, c) },
-	"AgentWrite":              func(a acl.Authorizer, s string, c *acl.AuthorizerContext) acl.EnforcementDecision { return a.AgentWrite(s, c) },
-	"EventRead":               func(a acl.Authorizer, s string, c *acl.AuthorizerContext) acl.EnforcementDecision { return a.EventRead(s, c) },
-	"EventWrite":              func(a acl.Authorizer, s string, c *acl.AuthorizerContext) acl.EnforcementDecision { return a.EventWrite(s, c) },
-	"IntentionDefaultAllow":   func(a acl.Authorizer, _ string, c *acl.AuthorizerContext) acl.EnforcementDecision { return a.IntentionDefaultAllow(c) },
-	"IntentionRead":           func(a acl.Authorizer, s string, c *acl.AuthorizerContext) acl.EnforcementDecision { return a.IntentionRead(s, c) },
-	"IntentionWrite":          func(a acl.Authorizer, s string, c *acl.AuthorizerContext) acl.EnforcementDecision { return a.IntentionWrite(s, c) },
-	"KeyList":                 func(a acl.Authorizer, s string, c *acl.AuthorizerContext) acl.EnforcementDecision { return a.KeyList(s, c) },
-	"KeyRead":                 func(a acl.Authorizer, s string, c *acl.AuthorizerContext) acl.EnforcementDecision { return a.KeyRead(s, c) },
-	"KeyWrite":                func(a acl.Authorizer, s string, c *acl.AuthorizerContext) acl.EnforcementDecision { return a.KeyWrite(s, c) },
-	"KeyWritePrefix":          func(a acl.Authorizer, s string, c *acl.AuthorizerContext) acl.EnforcementDecision { return a.KeyWritePrefix(s, c) },
-	"KeyringRead":             func(a acl.Authorizer, _ string, c *acl.AuthorizerContext) acl.EnforcementDecision { return a.KeyringRead(c) },
-	"KeyringWrite":            func(a acl.Authorizer, _ string, c *acl.AuthorizerContext) acl.EnforcementDecision { return a.KeyringWrite(c) },
-	"MeshRead":                func(a acl.Authorizer, _ string, c *acl.AuthorizerContext) acl.EnforcementDecision { return a.MeshRead(c) },
-	"MeshWrite":               func(a acl.Authorizer, _ string, c *acl.AuthorizerContext) acl.EnforcementDecision { return a.MeshWrite(c) },
-	"PeeringRead":             func(a acl.Authorizer, _ string, c *acl.AuthorizerContext) acl.EnforcementDecision { return a.PeeringRead(c) },
-	"PeeringWrite":            func(a acl.Authorizer, _ string, c *acl.AuthorizerContext) acl.EnforcementDecision { return a.PeeringWrite(c) },
-	"NodeRead":                func(a acl.Authorizer, s string, c *acl.AuthorizerContext) acl.EnforcementDecision { return a.NodeRead(s, c) },
-	"NodeReadAll":             func(a acl.Authorizer, _ string, c *acl.AuthorizerContext) acl.EnforcementDecision { return a.NodeReadAll(c) },
-	"NodeWrite":               func(a acl.Authorizer, s string, c *acl.AuthorizerContext) acl.EnforcementDecision { return a.NodeWrite(s, c) },
-	"OperatorRead":            func(a acl.Authorizer, _ string, c *acl.AuthorizerContext) acl.EnforcementDecision { return a.OperatorRead(c) },
-	"OperatorWrite":           func(a acl.Authorizer, _ string, c *acl.AuthorizerContext) acl.EnforcementDecision { return a.OperatorWrite(c) },
-	"PreparedQueryRead":       func(a acl.Authorizer, s string, c *acl.AuthorizerContext) acl.EnforcementDecision { return a.PreparedQueryRead(s, c) },
-	"PreparedQueryWrite":      func(a acl.Authorizer, s string, c *acl.AuthorizerContext) acl.EnforcementDecision { return a.PreparedQueryWrite(s, c) },
-	"ServiceRead":             func(a acl.Authorizer, s string, c *acl.AuthorizerContext) acl.EnforcementDecision { return a.ServiceRead(s, c) },
-	"ServiceReadAll":          func(a acl.Authorizer, _ string, c *acl.AuthorizerContext) acl.EnforcementDecision { return a.ServiceReadAll(c) },
-	"ServiceReadPrefix":       func(a acl.Authorizer, s string, c *acl.AuthorizerContext) acl.EnforcementDecision { return a.ServiceReadPrefix(s, c) },
-	"ServiceWrite":            func(a acl.Authorizer, s string, c *acl.AuthorizerContext) acl.EnforcementDecision { return a.ServiceWrite(s, c) },
-	"ServiceWriteAny":         func(a acl.Authorizer, _ string, c *acl.AuthorizerContext) acl.EnforcementDecision { return a.ServiceWriteAny(c) },
-	"SessionRead":             func(a acl.Authorizer, s string, c *acl.AuthorizerContext) acl.EnforcementDecision { return a.SessionRead(s, c) },
-	"SessionWrite":            func(a acl.Authorizer, s string, c *acl.AuthorizerContext) acl.EnforcementDecision { return a.SessionWrite(s, c) },
-	"Snapshot":                func(a acl.Authorizer, _ string, c *acl.AuthorizerContext) acl.EnforcementDecision { return a.Snapshot(c) },
-	"TrafficPermissionsRead":  func(a acl.Authorizer, s string, c *acl.AuthorizerContext) acl.EnforcementDecision { return a.TrafficPermissionsRead(s, c) },
-	"TrafficPermissionsWrite": func(a acl.Authorizer, s string, c *acl.AuthorizerContext) acl.EnforcementDecision { return a.TrafficPermissionsWrite(s, c) },
+	"ACLRead": func(a acl.Authorizer, _ string, c *acl.AuthorizerContext) acl.EnforcementDecision {
+		return a.ACLRead(c)
+	},
+	"ACLWrite": func(a acl.Authorizer, _ string, c *acl.AuthorizerContext) acl.EnforcementDecision {
+		return a.ACLWrite(c)
+	},
+	"AgentRead": func(a acl.Authorizer, s string, c *acl.AuthorizerContext) acl.EnforcementDecision {
+		return a.AgentRead(s, c)
+	},
+	"AgentWrite": func(a acl.Authorizer, s string, c *acl.AuthorizerContext) acl.EnforcementDecision {
+		return a.AgentWrite(s, c)
+	},
+	"EventRead": func(a acl.Authorizer, s string, c *acl.AuthorizerContext) acl.EnforcementDecision {
+		return a.EventRead(s, c)
+	},
+	"EventWrite": func(a acl.Authorizer, s string, c *acl.AuthorizerContext) acl.EnforcementDecision {
+		return a.EventWrite(s, c)
+	},
+	"IntentionDefaultAllow": func(a acl.Authorizer, _ string, c *acl.AuthorizerContext) acl.EnforcementDecision {
+		return a.IntentionDefaultAllow(c)
+	},
+	"IntentionRead": func(a acl.Authorizer, s string, c *acl.AuthorizerContext) acl.EnforcementDecision {
+		return a.IntentionRead(s, c)
+	},
+	"IntentionWrite": func(a acl.Authorizer, s string, c *acl.AuthorizerContext) acl.EnforcementDecision {
+		return a.IntentionWrite(s, c)
+	},
+	"KeyList": func(a acl.Authorizer, s string, c *acl.AuthorizerContext) acl.EnforcementDecision {
+		return a.KeyList(s, c)
+	},
+	"KeyRead": func(a acl.Authorizer, s string, c *acl.AuthorizerContext) acl.EnforcementDecision {
+		return a.KeyRead(s, c)
+	},
+	"KeyWrite": func(a acl.Authorizer, s string, c *acl.AuthorizerContext) acl.EnforcementDecision {
+		return a.KeyWrite(s, c)
+	},
+	"KeyWritePrefix": func(a acl.Authorizer, s string, c *acl.AuthorizerContext) acl.EnforcementDecision {
+		return a.KeyWritePrefix(s, c)
+	},
+	"KeyringRead": func(a acl.Authorizer, _ string, c *acl.AuthorizerContext) acl.EnforcementDecision {
+		return a.KeyringRead(c)
+	},
+	"KeyringWrite": func(a acl.Authorizer, _ string, c *acl.AuthorizerContext) acl.EnforcementDecision {
+		return a.KeyringWrite(c)
+	},
+	"MeshRead": func(a acl.Authorizer, _ string, c *acl.AuthorizerContext) acl.EnforcementDecision {
+		return a.MeshRead(c)
+	},
+	"MeshWrite": func(a acl.Authorizer, _ string, c *acl.AuthorizerContext) acl.EnforcementDecision {
+		return a.MeshWrite(c)
+	},
+	"PeeringRead": func(a acl.Authorizer, _ string, c *acl.AuthorizerContext) acl.EnforcementDecision {
+		return a.PeeringRead(c)
+	},
+	"PeeringWrite": func(a acl.Authorizer, _ string, c *acl.AuthorizerContext) acl.EnforcementDecision {
+		return a.PeeringWrite(c)
+	},
+	"NodeRead": func(a acl.Authorizer, s string, c *acl.AuthorizerContext) acl.EnforcementDecision {
+		return a.NodeRead(s, c)
+	},
+	"NodeReadAll": func(a acl.Authorizer, _ string, c *acl.AuthorizerContext) acl.EnforcementDecision {
+		return a.NodeReadAll(c)
+	},
+	"NodeWrite": func(a acl.Authorizer, s string, c *acl.AuthorizerContext) acl.EnforcementDecision {
+		return a.NodeWrite(s, c)
+	},
+	"OperatorRead": func(a acl.Authorizer, _ string, c *acl.AuthorizerContext) acl.EnforcementDecision {
+		return a.OperatorRead(c)
+	},
+	"OperatorWrite": func(a acl.Authorizer, _ string, c *acl.AuthorizerContext) acl.EnforcementDecision {
+		return a.OperatorWrite(c)
+	},
+	"PreparedQueryRead": func(a acl.Authorizer, s string, c *acl.AuthorizerContext) acl.EnforcementDecision {
+		return a.PreparedQueryRead(s, c)
+	},
+	"PreparedQueryWrite": func(a acl.Authorizer, s string, c *acl.AuthorizerContext) acl.EnforcementDecision {
+		return a.PreparedQueryWrite(s, c)
+	},
+	"ServiceRead": func(a acl.Authorizer, s string, c *acl.AuthorizerContext) acl.EnforcementDecision {
+		return a.ServiceRead(s, c)
+	},
+	"ServiceReadAll": func(a acl.Authorizer, _ string, c *acl.AuthorizerContext) acl.EnforcementDecision {
+		return a.ServiceReadAll(c)
+	},
+	"ServiceReadPrefix": func(a acl.Authorizer, s string, c *acl.AuthorizerContext) acl.EnforcementDecision {
+		return a.ServiceReadPrefix(s, c)
+	},
+	"ServiceWrite": func(a acl.Authorizer, s string, c *acl.AuthorizerContext) acl.EnforcementDecision {
+		return a.ServiceWrite(s, c)
+	},
+	"ServiceWriteAny": func(a acl.Authorizer, _ string, c *acl.AuthorizerContext) acl.EnforcementDecision {
+		return a.ServiceWriteAny(c)
+	},
+	"SessionRead": func(a acl.Authorizer, s string, c *acl.AuthorizerContext) acl.EnforcementDecision {
+		return a.SessionRead(s, c)
+	},
+	"SessionWrite": func(a acl.Authorizer, s string, c *acl.AuthorizerContext) acl.EnforcementDecision {
+		return a.SessionWrite(s, c)
+	},
+	"Snapshot": func(a acl.Authorizer, _ string, c *acl.AuthorizerContext) acl.EnforcementDecision {
+		return a.Snapshot(c)
+	},
+	"TrafficPermissionsRead": func(a acl.Authorizer, s string, c *acl.AuthorizerContext) acl.EnforcementDecision {
+		return a.TrafficPermissionsRead(s, c)
+	},
+	"TrafficPermissionsWrite": func(a acl.Authorizer, s string, c *acl.AuthorizerContext) acl.EnforcementDecision {
+		return a.TrafficPermissionsWrite(s, c)
+	},
 }
 
 var verifC08Unnamed = map[string]bool{
@@ -227,10 +299,10 @@ type verifC08State struct {
 	specs map[string]verifC08Policy // current version of each pool policy
 	rows  map[string]*ACLPolicy     // current ACLPolicy row (one shared object per version, as memdb rows are)
 	modIx uint64
-	texts map[string]string // content hash (hex) -> rule text, every version ever compiled
-	owner map[string]string // content hash -> id / identity it belongs to
-	seen  map[string]bool   // content hashes observed in the shared parsed cache at some point
-	done  [][]string        // id lists of earlier compile ops
+	texts map[string]string                    // content hash (hex) -> rule text, every version ever compiled
+	owner map[string]string                    // content hash -> id / identity it belongs to
+	seen  map[string]bool                      // content hashes observed in the shared parsed cache at some point
+	done  [][]string                           // id lists of earlier compile ops
 	last  map[string][]acl.EnforcementDecision // ordered id list -> decision vector it got last time
 	nt    bool
 }
@@ -696,6 +768,98 @@ func TestVerifC08Purity(t *testing.T) {
 	})
 }
 
+// ---- identities: the pure entry points the resolver feeds with objects owned by SHARED roles
+
+type verifC08IdentOp struct {
+	Kind string      `json:"kind"` // structs-identities
+	SIDs [][]string  `json:"sids"` // [name, dc...]
+	NIDs [][2]string `json:"nids"` // [name, dc]
+}
+
+func verifC08RunIdentities(f verifkit.F, rec *verifkit.Rec, op verifC08IdentOp, replay bool) {
+	c := rec.NewCase()
+	defer c.GuardPanic(f, "C08/panic")
+	c.Op(op)
+	c.Label("target=structs-identities")
+	if replay {
+		c.Label("replay")
+	}
+	build := func() (ACLServiceIdentities, ACLNodeIdentities) {
+		var sids ACLServiceIdentities
+		for _, x := range op.SIDs {
+			id := &ACLServiceIdentity{ServiceName: x[0]}
+			if len(x) > 1 {
+				id.Datacenters = append([]string{}, x[1:]...)
+			}
+			sids = append(sids, id)
+		}
+		var nids ACLNodeIdentities
+		for _, x := range op.NIDs {
+			nids = append(nids, &ACLNodeIdentity{NodeName: x[0], Datacenter: x[1]})
+		}
+		return sids, nids
+	}
+	scopes := map[string]map[string]bool{}
+	for _, x := range op.SIDs {
+		if scopes[x[0]] == nil {
+			scopes[x[0]] = map[string]bool{}
+		}
+		cp := append([]string{}, x[1:]...)
+		sort.Strings(cp)
+		scopes[x[0]][strings.Join(cp, ",")] = true
+	}
+	for _, sc := range scopes {
+		if len(sc) > 1 {
+			c.Label("identities=same-name-different-datacenter-scopes")
+			c.NonTrivial()
+		}
+	}
+	sids, nids := build()
+	wantS, wantN := build()
+	outS := sids.Deduplicate()
+	outN := nids.Deduplicate()
+	// what the resolver does next with the results
+	for _, id := range outS {
+		_ = id.SyntheticPolicy(nil)
+	}
+	for _, id := range outN {
+		_ = id.SyntheticPolicy(nil)
+	}
+	// the inputs belong to shared role objects: they must be exactly as before
+	if !reflect.DeepEqual(sids, wantS) {
+		gj, _ := json.Marshal(sids)
+		wj, _ := json.Marshal(wantS)
+		c.Violation(f, "C08/shared-identity-mutated-by-deduplicate", "ACLServiceIdentities.Deduplicate changed its input elements (owned by shared role objects):\n now    %s\n before %s", gj, wj)
+	}
+	if !reflect.DeepEqual(nids, wantN) {
+		gj, _ := json.Marshal(nids)
+		wj, _ := json.Marshal(wantN)
+		c.Violation(f, "C08/shared-identity-mutated-by-deduplicate", "ACLNodeIdentities.Deduplicate changed its input elements:\n now    %s\n before %s", gj, wj)
+	}
+	c.Done()
+}
+
+// TestVerifC08Identities: Deduplicate / SyntheticPolicy must not touch their inputs.
+func TestVerifC08Identities(t *testing.T) {
+	rec := verifC08Recorder()
+	defer rec.Flush()
+	scopes := [][]string{nil, nil, {"dc1"}, {"dc2"}, {"dc1", "dc2"}, {"dc2", "dc1"}, {"dc3", "dc1"}}
+	rapid.Check(t, func(t *rapid.T) {
+		op := verifC08IdentOp{Kind: "structs-identities", SIDs: [][]string{}, NIDs: [][2]string{}}
+		n := rapid.IntRange(1, 6).Draw(t, "nsids")
+		for i := 0; i < n; i++ {
+			x := []string{rapid.SampledFrom([]string{"web", "web", "web-api", "x"}).Draw(t, "name")}
+			x = append(x, rapid.SampledFrom(scopes).Draw(t, "dcs")...)
+			op.SIDs = append(op.SIDs, x)
+		}
+		m := rapid.IntRange(0, 4).Draw(t, "nnids")
+		for i := 0; i < m; i++ {
+			op.NIDs = append(op.NIDs, [2]string{rapid.SampledFrom([]string{"web", "x"}).Draw(t, "node"), rapid.SampledFrom([]string{"dc1", "dc2"}).Draw(t, "ndc")})
+		}
+		verifC08RunIdentities(t, rec, op, false)
+	})
+}
+
 // TestVerifC08Replay re-executes saved histories (ops[0].kind == "structs-init") without rapid.
 func TestVerifC08Replay(t *testing.T) {
 	rec := verifC08Recorder()
@@ -714,6 +878,14 @@ func TestVerifC08Replay(t *testing.T) {
 				break
 			}
 			ops = append(ops, op)
+		}
+		if len(rp.Ops) > 0 {
+			var io verifC08IdentOp
+			if err := json.Unmarshal(rp.Ops[0], &io); err == nil && io.Kind == "structs-identities" {
+				t.Logf("replaying %s", path)
+				verifC08RunIdentities(t, rec, io, true)
+				continue
+			}
 		}
 		if len(ops) == 0 || ops[0].Kind != "structs-init" {
 			continue // a case of another C08 target (package acl)
